@@ -207,7 +207,9 @@ Fixpoint number_from {A} (i : Z) (l : list A) : list (Z * A) :=
   match l with [] => [] | x :: r => (i, x) :: number_from (i + 1) r end.
 
 (* blockLabels.Replace: children.Clear(); items.Clear(); one quoted node per label.
-   The label tokens (TokensForValue(cty.StringVal(label)), generate.go) are an input. *)
+   The label tokens (TokensForValue(cty.StringVal(label)) re-scanned by lexConfig, so
+   that they are split like the scanner splits them in a file) are an input: the
+   harness takes them from the labels node of a real NewBlock. *)
 Definition labels_replace (ls : list (list tok)) : labels :=
   let ch := number_from 1 (map LQuoted ls) in mkLabels ch (ids ch).
 
@@ -221,15 +223,34 @@ Definition set_list {A} (items : list Z) (ch : list (Z * A)) : list (Z * A) :=
   end.
 
 (* one label of blockLabels.Current; unesc = hclsyntax.ParseStringLiteralToken on
-   the literal's bytes (None = error diagnostics), an input of the model *)
+   one literal token's bytes (None = error diagnostics), an input of the model.
+   A quoted label is OQuote, one or more QuotedLit tokens (the scanner splits a
+   string around '$' and '%'), CQuote: the decoded literals are joined; any other
+   token in between, or a literal that does not decode, drops the label. *)
+Fixpoint join_lits (unesc : list Z -> option (list Z)) (ts : list tok) : option (list Z) :=
+  match ts with
+  | [] => Some []
+  | t :: r =>
+      if is (ty t) TokenQuotedLit then
+        match unesc (bytes t) with
+        | Some p => match join_lits unesc r with Some q => Some (p ++ q) | None => None end
+        | None => None
+        end
+      else None
+  end.
+
 Definition label_of (unesc : list Z -> option (list Z)) (l : leaf) : option (list Z) :=
   match l with
   | LIdent t => if is (ty t) TokenIdent then Some (bytes t) else None
-  | LQuoted [o; q; c] =>
-      if is (ty o) TokenOQuote && is (ty q) TokenQuotedLit && is (ty c) TokenCQuote
-      then unesc (bytes q) else None
-  | LQuoted [o; c] =>
-      if is (ty o) TokenOQuote && is (ty c) TokenCQuote then Some [] else None
+  | LQuoted (o :: rest) =>
+      match rev rest with
+      | c :: rmid =>
+          if (3 <=? Z.of_nat (length (o :: rest))) && is (ty o) TokenOQuote && is (ty c) TokenCQuote
+          then join_lits unesc (rev rmid)
+          else if (Z.of_nat (length (o :: rest)) =? 2) && is (ty o) TokenOQuote && is (ty c) TokenCQuote
+          then Some [] else None
+      | [] => None
+      end
   | _ => None
   end.
 
